@@ -207,10 +207,13 @@ def run(ctx):
                 "is non-trivial when at least one QueryResp listed at least one descriptor")
     rep.assumptions = ["observations differing only in destination or kind are not generated; descriptor kind is not judged",
                        "probes are sent with the topology-discovery service type; mixed addressing is C10's question"]
-    binary = H.build(ctx.work, "asan")
+    binary, plain = H.build_many(ctx.work, [dict(flavour="asan"), dict(flavour="plain")])
     scns = make_scenarios(ctx, ctx.n(400, 12000))
     run_monitored(ctx, binary, scns, monitor, tag="query")
+    # once more without red zones: a corrupted record that makes the sanitizer stop the child is, on the plain
+    # build, visible as lost / duplicated / invented observations
+    run_monitored(ctx, plain, scns, monitor, tag="query-plain")
     c = rep.counters
-    rep.need("queries_judged", c.get("queries_judged", 0), 1000)
+    rep.need("queries_judged", c.get("queries_judged", 0), 2000)
     for name in ("more-bit", "bridged", "direct", "drain>=3-queries", "empty-query", "at-or-over-capacity"):
         rep.need(name, c.get("reach:" + name, 0), 10)
